@@ -143,6 +143,24 @@ def layout_sites(f: Func, p1: str, p2: str):
             o2 = owner_of(n.iter.args[1], {p1: 1, p2: 2})
             if len(o1) == 1 and len(o2) == 1 and o1 != o2:
                 fills.append((n, next(iter(o1)), next(iter(o2))))
+        if isinstance(n, (ast.ListComp, ast.GeneratorExp)) and len(n.generators) == 2 and not any(g.ifs for g in n.generators):
+            # [f(a, b) for a in <outer> for b in <inner>]
+            o1 = owner_of(n.generators[0].iter, {p1: 1, p2: 2})
+            o2 = owner_of(n.generators[1].iter, {p1: 1, p2: 2})
+            if len(o1) == 1 and len(o2) == 1 and o1 != o2:
+                fills.append((n, next(iter(o1)), next(iter(o2))))
+        if isinstance(n, ast.For) and not any(isinstance(s, ast.For) for s in n.body):
+            # for a in <outer>: L.extend([f(a, b) for b in <inner>])  /  L += [...]
+            o1 = owner_of(n.iter, {p1: 1, p2: 2})
+            for s in n.body:
+                for c in ast.walk(s):
+                    if isinstance(c, (ast.ListComp, ast.GeneratorExp)) and len(c.generators) == 1 and not c.generators[0].ifs:
+                        par = getattr(c, "_parent", None)
+                        grow = (isinstance(par, ast.Call) and isinstance(par.func, ast.Attribute) and par.func.attr == "extend") or \
+                            (isinstance(par, ast.AugAssign) and isinstance(par.op, ast.Add))
+                        o2 = owner_of(c.generators[0].iter, {p1: 1, p2: 2})
+                        if grow and len(o1) == 1 and len(o2) == 1 and o1 != o2:
+                            fills.append((n, next(iter(o1)), next(iter(o2))))
         if isinstance(n, ast.Assign) and len(n.targets) == 1 and isinstance(n.targets[0], ast.Name) and "shape" in n.targets[0].id:
             e = n.value
             while isinstance(e, ast.Call) and dotted(e.func) in ("tuple", "list") and e.args:
